@@ -26,6 +26,32 @@ func iterMethodTerm(c *Ctx, fn *ssa.Function, itType *types.Named, name string, 
 
 // ownIteratorTerm: IT denotes the receiver/operand p:<k>'s own iterator: `(call:<C>.Iterator @ p:k)` directly, or a local
 // that the entry path initialises with it.
+// ownIteratorTermAt: like ownIteratorTerm, for a loop at cut k — when the iterator variable is assigned on several paths
+// (one loop written once over `smaller`, entered with either operand), the assignment on the paths entering this loop counts.
+func ownIteratorTermAt(gc *GCNF, IT *Term, k int) (operand string, ok bool) {
+	if IT.Op == "new" {
+		found, n := "", 0
+		for _, g := range gc.GCs {
+			if g.From == k || g.Exit.Op != "goto" || g.Exit.Leaf != itoa(k) {
+				continue
+			}
+			for _, ef := range g.Effects {
+				if isStore(ef) && ef.Args[0].String() == IT.String() && ef.Args[1].Op == "call" && strings.HasSuffix(ef.Args[1].Leaf, ").Iterator") && len(ef.Args[1].Args) == 2 && ef.Args[1].Args[1].Op == "p" {
+					if found != "" && found != ef.Args[1].Args[1].Leaf {
+						return "", false
+					}
+					found = ef.Args[1].Args[1].Leaf
+					n++
+				}
+			}
+		}
+		if n > 0 {
+			return found, true
+		}
+	}
+	return ownIteratorTerm(gc, IT)
+}
+
 func ownIteratorTerm(gc *GCNF, IT *Term) (operand string, ok bool) {
 	isIterCall := func(t *Term) (string, bool) {
 		if t.Op == "call" && strings.HasSuffix(t.Leaf, ").Iterator") && len(t.Args) == 2 && t.Args[1].Op == "p" {
@@ -664,6 +690,24 @@ func checkSetAlg(c *Ctx, ct *types.Named, fn *ssa.Function, gc *GCNF, name strin
 		}
 		return nil, false
 	}
+	// a set whose Add is one Go-map assignment per argument: the field it assigns into
+	addMapField := ""
+	if add := methodsOf(p, ct)["Add"]; add != nil {
+		for _, g := range c.GC(add).GCs {
+			for _, ef := range g.Effects {
+				if ef.Op == "mapset" && len(ef.Args) == 3 {
+					if ef.Args[0].Op == "load" && len(ef.Args[0].Args) == 1 && ef.Args[0].Args[0].Op == "fa" && ef.Args[0].Args[0].Args[0].String() == "p:0" {
+						addMapField = ef.Args[0].Args[0].Leaf
+					}
+				} else if isStore(ef) || ef.Op == "do" {
+					addMapField = "-" // Add does more than the map assignment (a linked set): writing the assignment out is not Add
+				}
+			}
+		}
+		if addMapField == "-" {
+			addMapField = ""
+		}
+	}
 	loops := map[int]*loopDesc{}
 	var result string
 	setResult := func(t *Term) {
@@ -704,7 +748,7 @@ func checkSetAlg(c *Ctx, ct *types.Named, fn *ssa.Function, gc *GCNF, name strin
 			elem = noEpoch(nodeL("ext", "1", nx))
 			stepRes = nodeL("ext", "0", nx)
 		case first.Op == "do" && strings.HasSuffix(first.Leaf, ").Next") && itType != nil:
-			op, ok := ownIteratorTerm(gc, first.Args[0])
+			op, ok := ownIteratorTermAt(gc, first.Args[0], g.From)
 			if !ok {
 				ld.bad = append(ld.bad, "the loop does not advance an operand's own iterator")
 				continue
@@ -786,6 +830,17 @@ func checkSetAlg(c *Ctx, ct *types.Named, fn *ssa.Function, gc *GCNF, name strin
 		}
 		added := false
 		for i, ef := range g.Effects {
+			if ef.Op == "mapset" && len(ef.Args) == 3 && addMapField != "" && i > 0 {
+				// the set's own Add is this map assignment (R24): writing it out is the same insertion
+				if owner, ok := innerOn(ef.Args[0], addMapField); ok {
+					if noEpoch(ef.Args[1]) != elem {
+						ld.bad = append(ld.bad, "the loop adds something other than the current element")
+					}
+					setResult(owner)
+					added = true
+					continue
+				}
+			}
 			if nm, args, ok := effDo(ef); ok && i > 0 {
 				if nm == innerAdd[1] && innerAdd[1] != "" && len(args) >= 2 {
 					if owner, ok := innerOn(args[0], innerAdd[0]); ok {
@@ -855,6 +910,7 @@ func checkSetAlg(c *Ctx, ct *types.Named, fn *ssa.Function, gc *GCNF, name strin
 		}
 		return
 	}
+	loopFreeUnion := false
 	switch name {
 	case "Intersection":
 		if len(loops) != 2 || len(byOperand["0"]) != 1 || len(byOperand["1"]) != 1 {
@@ -883,6 +939,38 @@ func checkSetAlg(c *Ctx, ct *types.Named, fn *ssa.Function, gc *GCNF, name strin
 			bad = append(bad, "the two arms are not selected by comparing the operand sizes")
 		}
 	case "Union":
+		if len(loops) == 0 && addMapField != "" {
+			// maps.Copy(result.items, a.items); maps.Copy(result.items, b.items): every element of both operands
+			n := 0
+			seenOp := map[string]bool{}
+			for _, g := range gc.GCs {
+				if g.From != 0 || g.Exit.Op != "return" {
+					continue
+				}
+				n++
+				for _, ef := range g.Effects {
+					if ef.Op == "stddo" && ef.Leaf == "maps.Copy" && len(ef.Args) == 2 {
+						dst, ok1 := innerOn(ef.Args[0], addMapField)
+						src, ok2 := innerOn(ef.Args[1], addMapField)
+						if ok1 && ok2 && src.Op == "p" {
+							setResult(dst)
+							seenOp[src.Leaf] = true
+							continue
+						}
+					}
+					bad = append(bad, "unexpected effect in a loop-free Union: "+trunc(noEpoch(ef), 120))
+				}
+				if len(g.Exit.Args) == 1 {
+					setResult(g.Exit.Args[0])
+				}
+			}
+			if n == 0 || !seenOp["0"] || !seenOp["1"] {
+				bad = append(bad, "a loop-free Union must copy the table of each operand into the result's table")
+			}
+			descs = append(descs, "maps.Copy of both operands' tables into the result")
+			loopFreeUnion = true
+			break
+		}
 		if len(loops) != 2 || len(byOperand["0"]) != 1 || len(byOperand["1"]) != 1 {
 			bad = append(bad, fmt.Sprintf("expected one loop over each operand, found %d loop(s)", len(loops)))
 		} else {
@@ -927,7 +1015,7 @@ func checkSetAlg(c *Ctx, ct *types.Named, fn *ssa.Function, gc *GCNF, name strin
 	// entry region: only an optional comparator-identity early return, which must return the (empty) result
 	hasCmp := len(comparatorPaths(p, ct)) > 0
 	for _, g := range gc.GCs {
-		if g.From != 0 {
+		if g.From != 0 || loopFreeUnion {
 			continue
 		}
 		same, differ := false, false
